@@ -2,10 +2,11 @@
 // Real code (dispenso/pool_allocator.{h,cpp}, linked in as a second translation unit):
 //   PoolAllocatorT<kThreadSafe>::{ctor, alloc, dealloc, clear, totalChunkCapacity, dtor}
 //   VF_TS=0 -> NoLockPoolAllocator, VF_TS=1 -> PoolAllocator (spin-lock word exercised from one thread).
-// Symbolic: chunkSize in {16,32,64}, chunks per slab in [VF_MINCPA,3], slab slack (allocSize not a
-//   multiple of chunkSize) in [0,chunkSize), placement of every slab inside the backing arena (any byte
-//   gap 0..15, so slabs are not chunk-aligned in absolute terms), and a history of up to VF_OPS
-//   operations alloc / dealloc(of a symbolically chosen live chunk) / clear, then destruction.
+// Per instance (concrete): chunkSize VF_CS, chunks per slab VF_CPA, slab slack VF_SLACK (allocSize =
+//   VF_CPA*VF_CS+VF_SLACK need not be a multiple of chunkSize).
+// Symbolic: placement of every slab inside the backing arena (any byte gap 0..15, so slabs are not
+//   chunk-aligned in absolute terms) and a history of up to VF_OPS operations
+//   alloc / dealloc(of a symbolically chosen live chunk) / clear / stop, then destruction.
 // The harness-provided allocFunc/deallocFunc log every slab (address, size, released count); the ghost
 // state keeps the set of live chunks.  Nothing below re-implements the allocator.
 #include <new>
@@ -18,8 +19,14 @@
 #ifndef VF_OPS
 #define VF_OPS 6
 #endif
-#ifndef VF_MINCPA
-#define VF_MINCPA 2
+#ifndef VF_CS
+#define VF_CS 16
+#endif
+#ifndef VF_CPA
+#define VF_CPA 2
+#endif
+#ifndef VF_SLACK
+#define VF_SLACK 0
 #endif
 
 using Pool = dispenso::PoolAllocatorT<(VF_TS != 0)>;
@@ -148,7 +155,6 @@ static void finish(Pool* pool) {
     }
   }
   vf_check(G.deallocCalls == G.allocCalls, "deallocFunc calls == allocFunc calls after destruction");
-  vf_reach("end of a history");
 }
 
 // The history is explored as a tree: every node picks the next operation symbolically and each choice
@@ -198,27 +204,15 @@ struct History<0> {
   VF_NOINLINE static void run(Pool* pool) { finish(pool); }
 };
 
-template <int kCpa>
-VF_NOINLINE static void withChunksPerSlab() {
-  G.cpa = kCpa;
-  G.allocSize += kCpa * G.cs;
+extern "C" void vf_main() {
+  // The configuration is concrete per instance (VF_CS / VF_CPA / VF_SLACK): chunksPerAlloc_ =
+  // allocSize / chunkSize steers the allocator's control flow and its vector capacities.
+  G.cs = VF_CS;
+  G.cpa = VF_CPA;
+  G.allocSize = (size_t)VF_CPA * VF_CS + VF_SLACK;
+  static_assert(VF_SLACK < VF_CS, "slack must be smaller than a chunk");
   Pool* pool = new (g_poolStorage) Pool(G.cs, G.allocSize, slabAlloc, slabFree);
+  vf_check(pool->chunksPerAlloc_ == G.cpa, "chunksPerAlloc_ == allocSize / chunkSize");
   vf_check(pool->totalChunkCapacity() == 0, "a new pool reports capacity 0");
   History<VF_OPS>::run(pool);
-}
-
-extern "C" void vf_main() {
-  uint32_t k = vf_range_u32(0, 2);
-  G.cs = (size_t)16 << k;
-  size_t slack = vf_range_u32(0, 63);
-  vf_assume(slack < G.cs);
-  G.allocSize = slack;
-  uint32_t cpa = vf_range_u32(VF_MINCPA, 3);
-  if (cpa == 1) {
-    withChunksPerSlab<1>();
-  } else if (cpa == 2) {
-    withChunksPerSlab<2>();
-  } else {
-    withChunksPerSlab<3>();
-  }
 }
